@@ -120,8 +120,11 @@ def build_cert(kid, expired, revoked, halg, secret=False, noise=False):
         out = b''
         if int.from_bytes(keypool.ref_public(kid).fingerprint[-1:], 'big') % 2 or halg == 8:
             blob = build_cert(kid, expired, revoked, halg, secret, noise='direct')
+        direct_only = any(p.tag == 2 and p.body[1] == 0x1F for p in wire.split_packets(blob))
         for p in wire.split_packets(blob):
-            if p.tag == 2:
+            # (where a direct-key signature states the validity period only that one is touched: the self-certifications stay in force, so that
+            # what is observed is the validity period and not the absence of any valid self-signature)
+            if p.tag == 2 and (p.body[1] == 0x1F or not direct_only):
                 t = rsig.parse_sig_body(p.body)
                 unh = keypool.sp(3, wire.u32(1)) + keypool.sp(9, wire.u32(0)) + t.unhashed_area
                 out += wire.build_packet(2, t.hashed_prefix + len(unh).to_bytes(2, 'big') + unh + p.body[t.left16_off:])
